@@ -21,7 +21,7 @@ from ..screens import make_screen  # noqa: E402
 
 from batchie import sampling  # noqa: E402
 from batchie.core import ThetaHolder  # noqa: E402
-from batchie.data import ExperimentSpace  # noqa: E402
+from batchie.data import ExperimentSpace, Screen  # noqa: E402
 from batchie.distance.mse import MSEDistance  # noqa: E402
 from batchie.distance_calculation import ChunkedDistanceMatrix, calculate_pairwise_distance_matrix_on_predictions  # noqa: E402
 from batchie.models.sparse_combo import SparseDrugCombo  # noqa: E402
@@ -53,7 +53,9 @@ BOUNDS = {
               "histories": "late results: every view of an unobserved plate taken before set_observed x 7 placeholder values; side operations: "
                            "every concat / combine of the observed view with an unobserved plate (both orders), invert, to_screen, "
                            "single_treatment_effects, ExperimentSpace.from_screen, each followed by training; incremental: the observed rows added in two calls at every split point, training arrays and posterior samples == one-shot model",
-              "interaction_model": "training data = combination rows AND the single-agent table (mean of the observed single-agent wells)"},
+              "interaction_model": "training data = combination rows AND the single-agent table (mean of the observed single-agent wells)",
+              "refusals": "every view / plate union with a masked row (and afterwards: the same model given the observed rows == a model that never saw the refused call); "
+                          "each observed row x {-0.5, NaN, -1e-46, -1e-60, -5e-324, -1e300}; the same (3 values) after save_h5 / load_h5 and through the train_model command"},
     "thorough": {"screens_per_model": 6, "single_row_values": MENU, "pair_values": MENU, "n_chunks": [1, 2, 3, 7], "batch_size": 2,
                  "n_thetas": 5, "burnin": 2, "thin": 2, "histories": "as quick", "interaction_model": "as quick"},
 }
@@ -151,13 +153,23 @@ def base_rows(model, idx):
                 ("s0", "o", (("a", 1.0), ("b", 2.0)), 0.45, True),
                 ("s0", "o", (("a", 1.0), ("b", 2.0)), 0.35, True),
             ],
+            [   # single-agent wells that exist only behind the mask (drug d; drug a for sample s1)
+                ("s0", "o", (("a", 1.0), (CTL, 0.0)), 0.80, True),
+                ("s0", "o", ((CTL, 0.0), ("b", 1.0)), 0.70, True),
+                ("s1", "o", (("b", 1.0), (CTL, 0.0)), 0.60, True),
+                ("s0", "o", (("a", 1.0), ("b", 1.0)), 0.40, True),
+                ("s0", "u1", (("d", 1.0), (CTL, 0.0)), 0.5, False),
+                ("s0", "u1", (("b", 1.0), ("a", 1.0)), 0.5, False),
+                ("s1", "u2", ((CTL, 0.0), ("a", 1.0)), 0.5, False),
+                ("s1", "u2", (("b", 1.0), (CTL, 0.0)), 0.5, False),
+            ],
         ]
     return fam[idx % len(fam)]
 
 
 def n_screens(model, tier):
     n = BOUNDS[tier]["screens_per_model"]
-    return min(n, 6 if model == "combo" else 3)
+    return min(n, 6 if model == "combo" else 4)
 
 
 def variants(rows, tier):
@@ -322,6 +334,11 @@ def plan(tier, seed):
     for model in ("combo", "interaction"):
         for idx in range(n_screens(model, tier)):
             rows = base_rows(model, idx)
+            if model == "interaction" and idx == 3:
+                # (the interaction model cannot predict a drug whose single-agent wells are all unobserved, so this screen
+                #  has no pipeline; it is used for the refusals only)
+                items.append({"kind": "refusal", "model": model, "screen": idx})
+                continue
             vs = variants(rows, tier)
             for c in range(0, len(vs), 12):
                 items.append({"kind": "pairs", "model": model, "screen": idx, "lo": c, "hi": min(len(vs), c + 12)})
@@ -422,6 +439,24 @@ def run_refusal(item, col, tier):
             col.outcome("refused-masked")
             col.refused += 1
             col.nontriv("masked", model, idx, label)
+            # the refused call left nothing behind: the same model object, given the observed rows next, holds exactly what
+            # a model that never saw the refused input holds (masked values have no influence on the data handed to the model)
+            fresh = make_model(model, screen)
+            try:
+                fresh.add_observations(screen.subset_observed())
+                m.add_observations(screen.subset_observed())
+            except Exception:  # noqa: BLE001
+                continue
+            col.evaluations += 1
+            col.transitions += 1
+            case_r = {"kind": "refusal", "model": model, "screen": idx, "what": "masked", "label": label}
+            if any(a.tobytes() != b_.tobytes() for a, b_ in zip(training_arrays(m), training_arrays(fresh))) or m.n_obs() != fresh.n_obs():
+                col.violation(f"C04|refused-call-leaves-data|{model}", f"after {label} of screen {idx} was refused, the model's training data differ from a model that never saw that call", case_r)
+            if model == "interaction":
+                tab = lambda mm: tuple(sorted((int(k[0]), int(k[1]), float(v)) for k, v in mm.single_effect_lookup.items()))  # noqa: E731
+                if tab(m) != tab(fresh):
+                    col.violation(f"C04|refused-call-leaves-data|lookup|{model}",
+                                  f"after {label} of screen {idx} was refused, the single-agent table is {tab(m)}; a model that never saw that call holds {tab(fresh)}", case_r)
             continue
         col.violation(f"C04|accepts-masked|{model}", f"{model} model accepted {label} of screen {idx} (contains masked rows); n_obs={m.n_obs()}",
                       {"kind": "refusal", "model": model, "screen": idx, "what": "masked", "label": label})
@@ -443,6 +478,38 @@ def run_refusal(item, col, tier):
             col.violation(f"C04|accepts-bad-observation|{model}",
                           f"{model} model accepted observation {bad} at observed row {i} of screen {idx}",
                           {"kind": "refusal", "model": model, "screen": idx, "what": "bad", "row": i, "value": bad})
+    # (c) the same through a file: the screen as Screen.load_h5 returns it, and the train_model command on that file
+    tmp = env.scratch_dir("c04r")
+    try:
+        path = os.path.join(tmp, "bad.h5")
+        for i in observed:
+            for bad in (-0.5, float("nan"), -5e-324):
+                col.evaluations += 1
+                col.transitions += 1
+                s2 = make_screen(apply_variant(rows, {i: bad}), control=CTL)
+                s2.save_h5(path)
+                s3 = Screen.load_h5(path)
+                m = make_model(model, s3)
+                case_f = {"kind": "refusal", "model": model, "screen": idx, "what": "bad-file", "row": i, "value": bad}
+                try:
+                    m.add_observations(s3.subset_observed())
+                    col.violation(f"C04|accepts-bad-observation|reloaded|{model}",
+                                  f"{model} model accepted the reloaded screen {idx} whose observed row {i} was saved as {bad} (it now reads {float(s3.observations[i])!r})", case_f)
+                except Exception:  # noqa: BLE001
+                    col.outcome("refused-bad-value-file")
+                    col.refused += 1
+                if i != observed[0] and tier == "quick":
+                    continue
+                cls = "SparseDrugCombo" if model == "combo" else "SparseDrugComboInteraction"
+                try:
+                    run_cli("train_model", ["--data", path, "--output", os.path.join(tmp, "th.h5"), "--model", cls, "--model-param", "n_embedding_dimensions=2",
+                                            "--n-samples", 1, "--n-burnin", 0, "--thin", 1, "--seed", 5])
+                    col.violation(f"C04|accepts-bad-observation|cli|{model}", f"train_model trained on the file of screen {idx} whose observed row {i} holds {bad}", case_f)
+                except BaseException:  # noqa: BLE001  (argparse / refusal)
+                    col.outcome("refused-bad-value-cli")
+                    col.refused += 1
+    finally:
+        shutil.rmtree(tmp, ignore_errors=True)
     col.states += len(views) + 6 * len(observed)
     col.transitions += len(views) + 6 * len(observed)
 
